@@ -61,7 +61,7 @@ def w4(ctx: Ctx, rep: Report, rid: str = "C14.W4"):
     ul = p.func("SyncState.unconditionally_get_latest")
     gu = ctx.cfg(ul)
     nic = [n for n in gu.nodes if node_has_call(n, "self.unconditionally_get_no_info($$$)")]
-    iname = local_assigned_from(ctx, ul, "self.providers[$S].info_oid($$$)")
+    iname = local_assigned_from(ctx, ul, "$P.info_oid($$$)")
     ok = bool(nic) and iname is not None and all(fact_in(ctx.facts(ul).facts(n), iname, False) for n in nic)
     ex = [n for n in gu.nodes if _assign(n, "$E[$S].exists = EXISTS")]
     pth = gu.reach([n.id for n in nic], lambda n: n in ex, follow=NORMAL) if nic else None
